@@ -137,6 +137,43 @@ __v32qi __builtin_ia32_pavgb256(__v32qi a, __v32qi b) {
     for (int i = 0; i < 32; i++) r[i] = (char)(((unsigned)(uint8_t)a[i] + (unsigned)(uint8_t)b[i] + 1u) >> 1);
     return r;
 }
+/* immediate shifts (count >= lane width gives 0, arithmetic shift saturates the count) */
+__v8hi __builtin_ia32_psllwi128(__v8hi a, int n) { __v8hi r; for (int i = 0; i < 8; i++) r[i] = (n < 0 || n > 15) ? 0 : (short)((uint16_t)a[i] << n); return r; }
+__v8hi __builtin_ia32_psrlwi128(__v8hi a, int n) { __v8hi r; for (int i = 0; i < 8; i++) r[i] = (n < 0 || n > 15) ? 0 : (short)((uint16_t)a[i] >> n); return r; }
+__v8hi __builtin_ia32_psrawi128(__v8hi a, int n) { __v8hi r; int m = (n < 0 || n > 15) ? 15 : n; for (int i = 0; i < 8; i++) r[i] = (short)(a[i] >> m); return r; }
+__v4si __builtin_ia32_pslldi128(__v4si a, int n) { __v4si r; for (int i = 0; i < 4; i++) r[i] = (n < 0 || n > 31) ? 0 : (int)((uint32_t)a[i] << n); return r; }
+__v4si __builtin_ia32_psrldi128(__v4si a, int n) { __v4si r; for (int i = 0; i < 4; i++) r[i] = (n < 0 || n > 31) ? 0 : (int)((uint32_t)a[i] >> n); return r; }
+__v4si __builtin_ia32_psradi128(__v4si a, int n) { __v4si r; int m = (n < 0 || n > 31) ? 31 : n; for (int i = 0; i < 4; i++) r[i] = a[i] >> m; return r; }
+__v16hi __builtin_ia32_psllwi256(__v16hi a, int n) { __v16hi r; for (int i = 0; i < 16; i++) r[i] = (n < 0 || n > 15) ? 0 : (short)((uint16_t)a[i] << n); return r; }
+__v16hi __builtin_ia32_psrlwi256(__v16hi a, int n) { __v16hi r; for (int i = 0; i < 16; i++) r[i] = (n < 0 || n > 15) ? 0 : (short)((uint16_t)a[i] >> n); return r; }
+__v16hi __builtin_ia32_psrawi256(__v16hi a, int n) { __v16hi r; int m = (n < 0 || n > 15) ? 15 : n; for (int i = 0; i < 16; i++) r[i] = (short)(a[i] >> m); return r; }
+__v8si __builtin_ia32_pslldi256(__v8si a, int n) { __v8si r; for (int i = 0; i < 8; i++) r[i] = (n < 0 || n > 31) ? 0 : (int)((uint32_t)a[i] << n); return r; }
+__v8si __builtin_ia32_psrldi256(__v8si a, int n) { __v8si r; for (int i = 0; i < 8; i++) r[i] = (n < 0 || n > 31) ? 0 : (int)((uint32_t)a[i] >> n); return r; }
+__v8si __builtin_ia32_psradi256(__v8si a, int n) { __v8si r; int m = (n < 0 || n > 31) ? 31 : n; for (int i = 0; i < 8; i++) r[i] = a[i] >> m; return r; }
+/* 128-bit interleaves and packs */
+__v16qi __builtin_ia32_punpcklbw128(__v16qi a, __v16qi b) { __v16qi r; for (int i = 0; i < 8; i++) { r[2 * i] = a[i]; r[2 * i + 1] = b[i]; } return r; }
+__v16qi __builtin_ia32_punpckhbw128(__v16qi a, __v16qi b) { __v16qi r; for (int i = 0; i < 8; i++) { r[2 * i] = a[8 + i]; r[2 * i + 1] = b[8 + i]; } return r; }
+__v8hi __builtin_ia32_punpcklwd128(__v8hi a, __v8hi b) { __v8hi r; for (int i = 0; i < 4; i++) { r[2 * i] = a[i]; r[2 * i + 1] = b[i]; } return r; }
+__v8hi __builtin_ia32_punpckhwd128(__v8hi a, __v8hi b) { __v8hi r; for (int i = 0; i < 4; i++) { r[2 * i] = a[4 + i]; r[2 * i + 1] = b[4 + i]; } return r; }
+__v4si __builtin_ia32_punpckldq128(__v4si a, __v4si b) { __v4si r; r[0] = a[0]; r[1] = b[0]; r[2] = a[1]; r[3] = b[1]; return r; }
+__v4si __builtin_ia32_punpckhdq128(__v4si a, __v4si b) { __v4si r; r[0] = a[2]; r[1] = b[2]; r[2] = a[3]; r[3] = b[3]; return r; }
+__v2di __builtin_ia32_punpcklqdq128(__v2di a, __v2di b) { __v2di r; r[0] = a[0]; r[1] = b[0]; return r; }
+__v2di __builtin_ia32_punpckhqdq128(__v2di a, __v2di b) { __v2di r; r[0] = a[1]; r[1] = b[1]; return r; }
+__v16hi __builtin_ia32_punpcklwd256(__v16hi a, __v16hi b) { __v16hi r; for (int l = 0; l < 2; l++) for (int i = 0; i < 4; i++) { r[l * 8 + 2 * i] = a[l * 8 + i]; r[l * 8 + 2 * i + 1] = b[l * 8 + i]; } return r; }
+__v16hi __builtin_ia32_punpckhwd256(__v16hi a, __v16hi b) { __v16hi r; for (int l = 0; l < 2; l++) for (int i = 0; i < 4; i++) { r[l * 8 + 2 * i] = a[l * 8 + 4 + i]; r[l * 8 + 2 * i + 1] = b[l * 8 + 4 + i]; } return r; }
+__v16qi __builtin_ia32_packsswb128(__v8hi a, __v8hi b) { __v16qi r; for (int i = 0; i < 8; i++) { r[i] = (char)v_sat_s8(a[i]); r[8 + i] = (char)v_sat_s8(b[i]); } return r; }
+__v8hi __builtin_ia32_packssdw128(__v4si a, __v4si b) { __v8hi r; for (int i = 0; i < 4; i++) { r[i] = v_sat_s16(a[i]); r[4 + i] = v_sat_s16(b[i]); } return r; }
+__v8hi __builtin_ia32_packusdw128(__v4si a, __v4si b) { __v8hi r; for (int i = 0; i < 4; i++) { r[i] = (short)v_sat_u16(a[i]); r[4 + i] = (short)v_sat_u16(b[i]); } return r; }
+__v16hi __builtin_ia32_packssdw256(__v8si a, __v8si b) { __v16hi r; for (int l = 0; l < 2; l++) for (int i = 0; i < 4; i++) { r[l * 8 + i] = v_sat_s16(a[l * 4 + i]); r[l * 8 + 4 + i] = v_sat_s16(b[l * 4 + i]); } return r; }
+__v16hi __builtin_ia32_packusdw256(__v8si a, __v8si b) { __v16hi r; for (int l = 0; l < 2; l++) for (int i = 0; i < 4; i++) { r[l * 8 + i] = (short)v_sat_u16(a[l * 4 + i]); r[l * 8 + 4 + i] = (short)v_sat_u16(b[l * 4 + i]); } return r; }
+/* saturating adds/subs */
+__v16hi __builtin_ia32_paddsw256(__v16hi a, __v16hi b) { __v16hi r; for (int i = 0; i < 16; i++) r[i] = v_sat_s16((int)a[i] + (int)b[i]); return r; }
+__v16hi __builtin_ia32_psubsw256(__v16hi a, __v16hi b) { __v16hi r; for (int i = 0; i < 16; i++) r[i] = v_sat_s16((int)a[i] - (int)b[i]); return r; }
+__v8hi __builtin_ia32_paddsw128(__v8hi a, __v8hi b) { __v8hi r; for (int i = 0; i < 8; i++) r[i] = v_sat_s16((int)a[i] + (int)b[i]); return r; }
+__v8hi __builtin_ia32_psubsw128(__v8hi a, __v8hi b) { __v8hi r; for (int i = 0; i < 8; i++) r[i] = v_sat_s16((int)a[i] - (int)b[i]); return r; }
+__v16qi __builtin_ia32_psubusb128(__v16qi a, __v16qi b) { __v16qi r; for (int i = 0; i < 16; i++) { int d = (int)(uint8_t)a[i] - (int)(uint8_t)b[i]; r[i] = (char)(d < 0 ? 0 : d); } return r; }
+__v16qi __builtin_ia32_paddusb128(__v16qi a, __v16qi b) { __v16qi r; for (int i = 0; i < 16; i++) { int d = (int)(uint8_t)a[i] + (int)(uint8_t)b[i]; r[i] = (char)(d > 255 ? 255 : d); } return r; }
+
 /* Integer<->double/float vector casts: gcc treats (__m128d)<__m128i> as a bit reinterpretation, CBMC 6.11
  * converts numerically (found by the self-test: loadh_pd).  All such casts and the 64-bit half moves that go
  * through double-typed builtins are replaced by explicit byte copies. */
